@@ -119,12 +119,15 @@ impl Writer {
 
 impl Write for Writer {
     fn write(&mut self, buf: &[u8]) -> std::io::Result<usize> {
-        self.builder.input(buf);
-        if mmap_store(&mut self.mmap, &mut self.tmpfile, &mut self.mmap_pos, buf)? {
-            Ok(buf.len())
+        let n = if mmap_store(&mut self.mmap, &mut self.tmpfile, &mut self.mmap_pos, buf)? {
+            buf.len()
         } else {
-            self.tmpfile.write(buf)
-        }
+            self.tmpfile.write(buf)?
+        };
+        // Only bytes that actually reached the temp file take part in the digest:
+        // a failed or short write must not be hashed, or a retry would count it twice.
+        self.builder.input(&buf[..n]);
+        Ok(n)
     }
 
     fn flush(&mut self) -> std::io::Result<()> {
@@ -318,7 +321,6 @@ impl AsyncWrite for AsyncWriter {
 
                         // Start the operation asynchronously.
                         *state = State::Busy(crate::async_lib::spawn_blocking(|| {
-                            inner.builder.input(&inner.buf);
                             let res = match mmap_store(
                                 &mut inner.mmap,
                                 &mut inner.tmpfile,
@@ -329,6 +331,11 @@ impl AsyncWrite for AsyncWriter {
                                 Ok(false) => inner.tmpfile.write(&inner.buf),
                                 Err(e) => Err(e),
                             };
+                            // Only bytes that actually reached the temp file take part in
+                            // the digest: a failed or short write must not be hashed.
+                            if let Ok(n) = res {
+                                inner.builder.input(&inner.buf[..n]);
+                            }
                             inner.last_op = Some(Operation::Write(res));
                             State::Idle(Some(inner))
                         }));
